@@ -56,6 +56,10 @@ func decoderFor(format string) yqlib.Decoder {
 	case "yaml":
 		p := yqlib.NewDefaultYamlPreferences()
 		return yqlib.NewYamlDecoder(p)
+	case "yaml-nopre":
+		p := yqlib.NewDefaultYamlPreferences()
+		p.LeadingContentPreProcessing = false
+		return yqlib.NewYamlDecoder(p)
 	case "json":
 		return yqlib.NewJSONDecoder()
 	case "props":
